@@ -14,6 +14,33 @@ COMMON_NOTE = ("Trusted: Lean 4.33.0 kernel; axioms propext, Classical.choice, Q
 
 # id -> (claimed, theorem summary, technique, design section, extra note)
 TABLE = {
+    "C01": (True,
+            "Theorems (Props/C01.lean, Props/C09.lean, Lemmas/Unparse*.lean) about scriptOf p, the syntax tree of the "
+            "text the serialiser writes (tied to the real dumps by the UNPARSE token correspondence): for every covered "
+            "program and EVERY layout of line ends the model parser returns that script and the listener model rebuilds "
+            "the program - same name, version, target, type, options, operations with positional and keyword "
+            "arguments and modes in order; free parameters = those the operations mention; numbers, booleans, strings, "
+            "lists and numeric arrays (any shape r x c >= 1x1) exactly; symbolic arguments come back as exactly the "
+            "written tree; every generation n exists and equals the first, and writes the same script (fixpoint). "
+            "Partial: non-tdm programs whose parameters reach an operation (the two open findings are the excluded "
+            "cases); the tdm variable block, SymPy's printing/re-simplification of symbolic values and CPython's float "
+            "repr (hypothesis class LawfulFmt: float(repr(x)) == x, shape of the complex literal) are covered by the "
+            "oracle (loads(dumps(p)) for 3/6 generations on random scripts) and the DUMPS/LOADS correspondences.",
+            "Lean 4 proof (printer/parser/listener composition, induction over operations and generations) + "
+            "round-trip oracle", "DESIGN.md 7 (C01)",
+            "Open findings: a parameter that reaches no operation is lost; a 1x1 whole-array parameter is renamed."),
+    "C09": (True,
+            "Theorems (Props/C09.lean): the written form of every integer/real/complex number evaluates to that number "
+            "(decimal text of naturals proved to read back; reals under LawfulFmt); the declaration written for an "
+            "r x c numeric array stores an array of the same element type and shape whose every element is the "
+            "original (any r, c >= 1); each operation line evaluates to that one operation; target/type lines to the "
+            "same options; the serialiser model refuses no covered program; whole programs: for every layout the "
+            "parser accepts the serialised tokens and loading yields the same program (C09_serialised_program_loads_"
+            "back). Kernel-evaluated concrete program as non-vacuity witness. Oracle: random API-built programs "
+            "(NumPy scalars, special floats, arrays in C/Fortran/transposed/strided layout) must load back equal.",
+            "Lean 4 proof (printer/parser/listener composition) + API round-trip oracle", "DESIGN.md 7 (C09)",
+            "Open findings: positional lists and array-valued options have no syntax; an empty list drops its key "
+            "(pinned by the test suite). CPython's float repr is a contract boundary (LawfulFmt)."),
     "C14": (True,
             "Theorems over data REGENERATED from /repo on every run by harness/translate.py (GenProps/C14.lean, kernel "
             "evaluation): the serialised ATNs embedded in blackbirdLexer.py, blackbirdLexer.cpp and both "
